@@ -364,45 +364,45 @@ struct Vecs {
 			mpz_powm(E[i].second, h, R[i], p); mpz_mul(E[i].second, E[i].second, e[pi[i]].second); mpz_mod(E[i].second, E[i].second, p); }
 	}
 };
-static void vsshe_variants(GrothVSSHE *P, GrothVSSHE *V, size_t n, unsigned kind, const std::string &d0) {
+static void vsshe_variants(GrothVSSHE *P, GrothVSSHE *V, size_t n, unsigned kind, const std::string &d0, unsigned forms = 7) {
 	Vecs X(n, kind, false, P->p, P->q, P->g, P->h);
 	std::string d = d0 + " n=" + std::to_string(n) + " perm=" + PK[kind % 6];
-	duplex("vsshe-interactive-rejected", "GrothVSSHE::Verify_interactive " + d,
+	if (forms & 1) duplex("vsshe-interactive-rejected", "GrothVSSHE::Verify_interactive " + d,
 		[&](std::istream &in, std::ostream &out) { P->Prove_interactive(X.pi, X.R, X.e, X.E, in, out); return true; },
 		[&](std::istream &in, std::ostream &out) { return V->Verify_interactive(X.e, X.E, in, out); });
-	duplex("vsshe-publiccoin-rejected", "GrothVSSHE::Verify_interactive_publiccoin " + d,
+	if (forms & 2) duplex("vsshe-publiccoin-rejected", "GrothVSSHE::Verify_interactive_publiccoin " + d,
 		[&](std::istream &in, std::ostream &out) { JareckiLysyanskayaEDCF cf(2, 0, P->p, P->q, P->g, P->h); P->Prove_interactive_publiccoin(X.pi, X.R, X.e, X.E, &cf, in, out); return true; },
 		[&](std::istream &in, std::ostream &out) { JareckiLysyanskayaEDCF cf(2, 0, V->p, V->q, V->g, V->h); return V->Verify_interactive_publiccoin(X.e, X.E, &cf, in, out); });
-	simplex("vsshe-noninteractive-rejected", "GrothVSSHE::Verify_noninteractive " + d,
+	if (forms & 4) simplex("vsshe-noninteractive-rejected", "GrothVSSHE::Verify_noninteractive " + d,
 		[&](std::ostream &out) { P->Prove_noninteractive(X.pi, X.R, X.e, X.E, out); },
 		[&](std::istream &in) { return V->Verify_noninteractive(X.e, X.E, in); });
 }
-static void skc_variants(GrothSKC *P, GrothSKC *V, size_t n, unsigned kind, const std::string &d0) {
+static void skc_variants(GrothSKC *P, GrothSKC *V, size_t n, unsigned kind, const std::string &d0, unsigned forms = 7) {
 	std::vector<Z> ms(n); std::vector<mpz_ptr> m, mperm(n); for (size_t i = 0; i < n; i++) { gen_below(ms[i], P->com->q); m.push_back(ms[i]); }
 	std::vector<size_t> pi = make_perm(n, kind); for (size_t i = 0; i < n; i++) mperm[i] = m[pi[i]];
 	Z c, r; P->com->Commit(c, r, mperm);
 	if (!V->com->Verify(c, r, mperm)) propfail("pedersen-open-rejected", "PedersenCommitmentScheme::Verify (other object) rejects the honest opening " + d0);
 	std::string d = d0 + " n=" + std::to_string(n) + " perm=" + PK[kind % 6];
-	duplex("skc-interactive-rejected", "GrothSKC::Verify_interactive " + d,
+	if (forms & 1) duplex("skc-interactive-rejected", "GrothSKC::Verify_interactive " + d,
 		[&](std::istream &in, std::ostream &out) { P->Prove_interactive(pi, r, m, in, out); return true; },
 		[&](std::istream &in, std::ostream &out) { return V->Verify_interactive(c, m, in, out, gen().coin()); });
-	duplex("skc-publiccoin-rejected", "GrothSKC::Verify_interactive_publiccoin " + d,
+	if (forms & 2) duplex("skc-publiccoin-rejected", "GrothSKC::Verify_interactive_publiccoin " + d,
 		[&](std::istream &in, std::ostream &out) { JareckiLysyanskayaEDCF cf(2, 0, P->com->p, P->com->q, P->com->g[0], P->com->h); P->Prove_interactive_publiccoin(pi, r, m, &cf, in, out); return true; },
 		[&](std::istream &in, std::ostream &out) { JareckiLysyanskayaEDCF cf(2, 0, V->com->p, V->com->q, V->com->g[0], V->com->h); return V->Verify_interactive_publiccoin(c, m, &cf, in, out, gen().coin()); });
-	for (int opt = 0; opt < 2; opt++)
+	if (forms & 4) for (int opt = 0; opt < 2; opt++)
 		simplex("skc-noninteractive-rejected", std::string("GrothSKC::Verify_noninteractive(optimizations=") + (opt ? "true) " : "false) ") + d,
 			[&](std::ostream &out) { P->Prove_noninteractive(pi, r, m, out); }, [&](std::istream &in) { return V->Verify_noninteractive(c, m, in, opt); });
 }
-static void vrhe_variants(HooghSchoenmakersSkoricVillegasVRHE *P, HooghSchoenmakersSkoricVillegasVRHE *V, size_t n, unsigned kind, const std::string &d0) {
+static void vrhe_variants(HooghSchoenmakersSkoricVillegasVRHE *P, HooghSchoenmakersSkoricVillegasVRHE *V, size_t n, unsigned kind, const std::string &d0, unsigned forms = 7) {
 	Vecs X(n, kind, true, P->p, P->q, P->g, P->h);
 	std::string d = d0 + " n=" + std::to_string(n) + " r=" + std::to_string(X.rot);
-	duplex("vrhe-interactive-rejected", "VRHE::Verify_interactive " + d,
+	if (forms & 1) duplex("vrhe-interactive-rejected", "VRHE::Verify_interactive " + d,
 		[&](std::istream &in, std::ostream &out) { P->Prove_interactive(X.rot, X.R, X.e, X.E, in, out); return true; },
 		[&](std::istream &in, std::ostream &out) { return V->Verify_interactive(X.e, X.E, in, out); });
-	duplex("vrhe-publiccoin-rejected", "VRHE::Verify_interactive_publiccoin " + d,
+	if (forms & 2) duplex("vrhe-publiccoin-rejected", "VRHE::Verify_interactive_publiccoin " + d,
 		[&](std::istream &in, std::ostream &out) { JareckiLysyanskayaEDCF cf(2, 0, P->p, P->q, P->g, P->h); P->Prove_interactive_publiccoin(X.rot, X.R, X.e, X.E, &cf, in, out); return true; },
 		[&](std::istream &in, std::ostream &out) { JareckiLysyanskayaEDCF cf(2, 0, V->p, V->q, V->g, V->h); return V->Verify_interactive_publiccoin(X.e, X.E, &cf, in, out); });
-	simplex("vrhe-noninteractive-rejected", "VRHE::Verify_noninteractive " + d,
+	if (forms & 4) simplex("vrhe-noninteractive-rejected", "VRHE::Verify_noninteractive " + d,
 		[&](std::ostream &out) { P->Prove_noninteractive(X.rot, X.R, X.e, X.E, out); }, [&](std::istream &in) { return V->Verify_noninteractive(X.e, X.E, in); });
 }
 static std::string pub(mpz_srcptr a, mpz_srcptr b, mpz_srcptr c, mpz_srcptr d) { return str62(a) + "\n" + str62(b) + "\n" + str62(c) + "\n" + str62(d) + "\n"; }
@@ -500,6 +500,47 @@ static void group_direct(Args &A, int sub) {
 	}
 }
 
+
+// ---- limits: stack / message counts just around the size-dependent code paths: TMCG_MAX_FPOWM_N = 256 (Pedersen generators from
+//      index 256 on have no fixed-base table: spowm / mpz_powm instead of fspowm / fpowm) and TMCG_MAX_CARDS = 512 ----------------------
+static void group_limits(Args &A, int sub) {
+	const bool T = A.thorough();
+	const std::vector<size_t> L = { TMCG_MAX_FPOWM_N - 1, TMCG_MAX_FPOWM_N, TMCG_MAX_FPOWM_N + 1, TMCG_MAX_FPOWM_N + 2, TMCG_MAX_CARDS };
+	const unsigned long le = 32; const unsigned PB = 192, QB = 128; const size_t nmax = TMCG_MAX_CARDS;
+	Grp G = gen_group(PB, QB); Z h; { Z x; gen_below(x, G.q); mpz_powm(h, G.g, x, G.p); }
+	std::string d0 = "at the table limit, " + gd(G);
+	if (sub < 0 || sub == 0) {
+		PedersenCommitmentScheme com(nmax, G.p, G.q, G.k, h, PB, QB);
+		std::stringstream pb; com.PublishGroup(pb); std::string pubs = pb.str();
+		std::stringstream i0(pubs); PedersenCommitmentScheme com2(nmax, i0, PB, QB);
+		for (size_t n : { (size_t)TMCG_MAX_FPOWM_N + 1, (size_t)TMCG_MAX_CARDS, (size_t)TMCG_MAX_FPOWM_N }) for (int rep = 0; rep < 2; rep++) {
+			std::vector<Z> ms(n); std::vector<mpz_ptr> m; for (size_t i = 0; i < n; i++) { gen_below(ms[i], G.q); m.push_back(ms[i]); }
+			Z c, r, c1, c2; cases++;
+			com.Commit(c, r, m); com2.CommitBy(c1, r, m, true); com.CommitBy(c2, r, m, false);
+			std::string d = std::to_string(n) + " messages " + d0;
+			if (mpz_cmp(c, c1) || mpz_cmp(c, c2)) propfail("pedersen-commitby-differs", "Commit / CommitBy(protection on) / CommitBy(protection off) disagree for " + d);
+			if (!com2.Verify(c, r, m) || !com.Verify(c1, r, m) || !com.Verify(c2, r, m)) propfail("pedersen-open-rejected", "PedersenCommitmentScheme::Verify rejects an honest opening of " + d);
+			Z ref; mpz_powm(ref, com.h, r, com.p); Z t; for (size_t i = 0; i < n; i++) { mpz_powm(t, com.g[i], m[i], com.p); mpz_mul(ref, ref, t); mpz_mod(ref, ref, com.p); }
+			if (mpz_cmp(ref, c)) propfail("pedersen-commit-wrong", "Commit is not h^r * prod g_i^m_i for " + d);
+		}
+		std::stringstream i1(pubs), i2(pubs); GrothSKC P(nmax, i1, le, PB, QB), V(nmax, i2, le, PB, QB);
+		for (size_t n : L) skc_variants(&P, &V, n, 2, d0, T ? 7 : 4);
+	}
+	if (sub < 0 || sub == 1) {
+		GrothVSSHE P(nmax, G.p, G.q, G.k, G.g, h, le, PB, QB); std::stringstream pb; P.PublishGroup(pb); GrothVSSHE V(nmax, pb, le, PB, QB);
+		for (size_t n : L) vsshe_variants(&P, &V, n, 2, d0, T ? 7 : 4);
+	}
+	if (T && (sub < 0 || sub == 2)) {
+		HooghSchoenmakersSkoricVillegasVRHE P(G.p, G.q, G.g, h, PB, QB); std::stringstream pb; P.PublishGroup(pb); HooghSchoenmakersSkoricVillegasVRHE V(pb, PB, QB);
+		for (size_t n : L) vrhe_variants(&P, &V, n, 1, d0, 7);
+	}
+	if (T && (sub < 0 || sub == 3)) {
+		Table Tb = make_table(G, 2); SchindelhauerTMCG tmcg(2, 2, 10);
+		for (size_t n : L) { stack_cases(tmcg, Tb.pl[0], Tb.pl[1], 0, 0, 0, 0, n, 2, d0, "cutchoose"); stack_cases(tmcg, Tb.pl[0], Tb.pl[1], 0, 0, 0, 0, n, 5, d0, "cutchoose"); }
+		free_table(Tb);
+	}
+}
+
 static int proto_main(Args &A) {
 	signal(SIGPIPE, SIG_IGN);
 	std::string g = A.only; int sub = -1;
@@ -509,6 +550,7 @@ static int proto_main(Args &A) {
 	else if (g == "cutchoose" || g == "groth" || g == "hoogh") group_stacks(A, g, sub);
 	else if (g == "skc") group_skc(A);
 	else if (g == "direct") group_direct(A, sub);
+	else if (g == "limits") group_limits(A, sub);
 	else if (g == "rabin") group_rabin(A);
 	else { fprintf(stderr, "unknown group %s\n", g.c_str()); return 2; }
 	printf("STAT proto group=%s cases=%lu\n", A.only.c_str(), cases);
